@@ -192,35 +192,44 @@ class SubsetAlias:
     """Run another property's rule module as a premise: instances of the rules named in `mapping` are recorded under this
     property's rule id (key prefixed), everything else the module reports is dropped."""
 
-    def __init__(self, R, mapping, prefix=""):
-        self.R, self.mapping, self.prefix = R, mapping, prefix
+    def __init__(self, R, mapping, prefix="", keys=None):
+        self.R, self.mapping, self.prefix, self.keys = R, mapping, prefix, keys
+        self._key = None
 
     def _m(self, rule):
+        if self.keys is not None and self._key is not None and self._key not in self.keys:
+            return None
         return self.mapping.get(rule)
 
     def rule(self, rule, text):
+        self._key = None
         if self._m(rule):
             self.R.rule(self._m(rule), text) if self._m(rule) not in getattr(self.R, "rules", {}) else None
 
     def check(self, rule, key, ok, *a, **k):
+        self._key = key
         if self._m(rule):
             return self.R.check(self._m(rule), self.prefix + key, ok, *a, **k)
         return bool(ok)
 
     def violation(self, rule, key, *a, **k):
+        self._key = key
         if self._m(rule):
             return self.R.violation(self._m(rule), self.prefix + key, *a, **k)
 
     def holds(self, rule, key, *a, **k):
+        self._key = key
         if self._m(rule):
             return self.R.holds(self._m(rule), self.prefix + key, *a, **k)
 
     def inconclusive(self, rule, key, *a, **k):
+        self._key = key
         if self._m(rule):
             return self.R.inconclusive(self._m(rule), self.prefix + key, *a, **k)
 
     def floor(self, rule, what, n, minimum):
-        if self._m(rule):
+        self._key = None
+        if self.keys is None and self._m(rule):
             return self.R.floor(self._m(rule), what, n, minimum)
         return n >= minimum
 
